@@ -27,7 +27,7 @@ func init() {
 	natives = map[string]nativeFn{
 		"time.Now": nativeNow,
 		"time.Since": func(fr *Frame, st *State, a []Val, p token.Pos) Val {
-			return timeSub(fr.run.clockRead(st), fr.toTerm(a[0]))
+			return timeSub(fr.run.wallRead(st), fr.toTerm(a[0]))
 		},
 		"time.Until": func(fr *Frame, st *State, a []Val, p token.Pos) Val {
 			return timeSub(fr.toTerm(a[0]), fr.run.clockRead(st))
@@ -117,11 +117,23 @@ func (r *Run) clockRead(st *State) Term {
 	// the clock is a real wall clock: after 1970 and before year 2262 (UnixNano representable)
 	r.assume(st, and(app("Bool", ">", now, intLit(0)), app("Bool", "<", now, bigLit("9223372036854775807"))))
 	st.heaps[key] = now
-	r.noteAssume("all clock reads (time.Now, ktime.Clock, package Clock interfaces, time.Until/Since) observe one monotone clock")
+	r.noteAssume("all decision-clock reads (ktime.Clock, package Clock interfaces, time.Until) observe one monotone clock")
 	return app("Time", "mk_time", now, Term{"loc_local", "Int"})
 }
 
-func nativeNow(fr *Frame, st *State, args []Val, pos token.Pos) Val { return fr.run.clockRead(st) }
+// wallRead: time.Now() / time.Since() of package time. The repository takes every time a *decision* depends on from the
+// injectable clock (ktime.Clock, clock.Clock interfaces, and time.Until for wake-up delays); raw time.Now() only feeds
+// elapsed-time logs and metrics. It is therefore modelled as an unconstrained reading that does NOT advance the ghost
+// decision clock: adding a timing log to a function is not an effect, and code that would base a decision on raw
+// time.Now() gets a value nothing is known about, so its never-early obligations fail.
+func (r *Run) wallRead(st *State) Term {
+	now := r.havoc("wall", "Int")
+	r.assume(st, and(app("Bool", ">", now, intLit(0)), app("Bool", "<", now, bigLit("9223372036854775807"))))
+	r.noteAssume("raw time.Now() / time.Since() (diagnostics only in this repository) are unconstrained wall-clock readings, separate from the injectable decision clock")
+	return app("Time", "mk_time", now, Term{"loc_local", "Int"})
+}
+
+func nativeNow(fr *Frame, st *State, args []Val, pos token.Pos) Val { return fr.run.wallRead(st) }
 
 // isClockInvoke: any interface method Now() time.Time is a clock read.
 func isClockMethod(m *types.Func) bool {
